@@ -220,6 +220,11 @@ class Joiner:
                     if isinstance(x, VInt) and x == y and x.lin.single() is not None and x.lin.c == 0 and x.lin.single()[1] == 1:
                         for f_ in fresh:
                             self.sib_anchors.setdefault(f_, []).append(x.lin.single()[0])
+                    elif isinstance(x, VSlice) and isinstance(y, VSlice) and x.n == y.n and x.n.single() is not None and x.n.c == 0 \
+                            and x.n.single()[1] == 1:
+                        # the length of a sibling slice field (an index into it is naturally bounded by it)
+                        for f_ in fresh:
+                            self.sib_anchors.setdefault(f_, []).append(x.n.single()[0])
             return VAgg(a.kind, a.defn, kids)
         if ta is VEnum:
             if a.defn != b.defn:
